@@ -3,7 +3,7 @@ P21 = "Claripy.Props.C21."
 P22 = "Claripy.Props.C22."
 V = "Claripy.VSA."
 THEOREMS_C21 = [P21 + n for n in ("C21_add_sound", "C21_add_closed", "C21_sub_sound", "C21_sub_closed", "C21_neg_sound",
-                                  "C21_not_sound", "C21_zext_sound", "C21_ucmp_sound", "C21_scmp_sound", "C21_cast_low_sound", "C21_extract_sound", "C21_sext_sound", "C21_udiv_sound", "C21_lshr_sound", "C21_shl_sound", "C21_or_sound", "C21_warren_bounds", "C21_and_sound", "C21_xor_sound", "C21_concat_sound", "C21_ashr_sound", "C21_eq_sound", "eq_unaligned_unsound", "C21_mul_aligned", "C21_mul_closed", "C21_mod_sound_partial",
+                                  "C21_not_sound", "C21_zext_sound", "C21_ucmp_sound", "C21_scmp_sound", "C21_cast_low_sound", "C21_extract_sound", "C21_sext_sound", "C21_udiv_sound", "C21_lshr_sound", "C21_shl_sound", "C21_or_sound", "C21_warren_bounds", "C21_and_sound", "C21_xor_sound", "C21_concat_sound", "C21_ashr_sound", "C21_eq_sound", "eq_unaligned_unsound", "C21_mul_aligned", "C21_mul_closed", "C21_mod_sound_partial", "C21_mod_sound", "C21_mod_full_holds",
                                   "sdiv_unsound", "mul_unaligned_unsound",
                                   "C21_add_aligned", "C21_sub_aligned", "C21_neg_not_aligned", "C21_or_aligned", "C21_and_xor_aligned", "C21_mul_result_aligned", "C21_udiv_aligned", "C21_mod_aligned", "C21_shift_aligned", "C21_cast_low_aligned", "C21_extract_aligned", "C21_ext_aligned", "C21_concat_aligned")] + \
                [V + n for n in ("ssplit_spec", "ssplit_wrap", "not_sound", "zext_sound", "ucmp_sound", "cmpWith_sound",
@@ -20,7 +20,7 @@ THEOREMS_C21 = [P21 + n for n in ("C21_add_sound", "C21_add_closed", "C21_sub_so
                                 "ashr_sound", "rshiftArithK_sound", "ashrPiece_spec", "ashr_roundTo", "rshiftArithK_succ", "unionLoop_sup",
                                 "mul_sound", "mulPair_sound", "umul_piece", "smul_piece", "prod_interval", "finInterval", "psplit_aligned", "mul_eq", "mulOuter_mem",
                                 "mod_sound", "modPair_sound", "udivPiece_spec", "mod_eq",
-                                "aligned_of_mem_ub", "mem_ub_of_aligned", "new_aligned_of_mem", "add_aligned", "sub_aligned", "neg_aligned", "not_aligned", "zext_aligned", "shl_aligned", "lshr_aligned", "lshiftK_aligned", "rshiftLogicalK_aligned", "overRange_aligned", "castLow_aligned", "extract_aligned", "udiv_aligned", "mul_aligned", "mod_aligned", "orPiece_aligned", "or_aligned", "and_aligned", "xor_aligned", "ashr_aligned", "ashrPiece_aligned", "rshiftArithK_aligned", "sext_aligned", "concat_aligned", "lshiftK_aligned_of")]
+                                "aligned_of_mem_ub", "mem_ub_of_aligned", "new_aligned_of_mem", "add_aligned", "sub_aligned", "neg_aligned", "not_aligned", "zext_aligned", "shl_aligned", "lshr_aligned", "lshiftK_aligned", "rshiftLogicalK_aligned", "overRange_aligned", "castLow_aligned", "extract_aligned", "udiv_aligned", "mul_aligned", "mod_aligned", "orPiece_aligned", "or_aligned", "and_aligned", "xor_aligned", "ashr_aligned", "ashrPiece_aligned", "rshiftArithK_aligned", "sext_aligned", "concat_aligned", "lshiftK_aligned_of", "mod_sound_full", "modPair_full", "mul_single_sound", "mulPair_single", "multiMeet_self", "multiMeet_WF", "umul_single_WF", "umul_single_eq", "umul_single_mem", "smul_single_WF", "smul_single_eq", "psplit_nostraddle", "udivPiece_lb", "isSurrounded_self")]
 TESTS_C21 = [P21 + "test_add_example"]
 THEOREMS_C22 = [P22 + n for n in ("C22_top_mem", "C22_new_mem", "C22_pseudo_join_sup", "C22_lub_sup", "C22_union_sup",
                                   "C22_members_exact", "C22_cardinality_exact", "C22_solution_exact", "C22_eval_exact", "C22_min_max_bound", "C22_min_exact", "C22_max_exact_aligned", "C22_signed_min_max_bound",
